@@ -298,6 +298,7 @@ func generate(rng *rand.Rand, k Knobs, profile string) *Prog {
 				en.Ref.X = pickX(p.Tasks[j])
 				if rng.Float64() < k.PLoop {
 					en.Loop = loopVals[:2+rng.Intn(3)]
+					en.LoopVar = rng.Intn(3) == 0
 					if p.Tasks[j].Run == WhenChanged || (p.Tasks[j].UsesX && rng.Float64() < 0.5) {
 						en.Ref.X = "k%ITEM%"
 					}
@@ -331,6 +332,7 @@ func generate(rng *rand.Rand, k Knobs, profile string) *Prog {
 					}
 				} else if rng.Float64() < k.PLoop {
 					en.Loop = loopVals[:2+rng.Intn(3)]
+					en.LoopVar = rng.Intn(3) == 0
 				} else if rng.Float64() < k.PMatrix {
 					en.Matrix = randMatrix(rng)
 					en.MatrixRef = rng.Float64() < 0.4
